@@ -14,7 +14,7 @@ import (
 
 // Op is one step of a CLI history.
 type Op struct {
-	Kind     string `json:"kind"` // add | apply | fix | set
+	Kind     string `json:"kind"` // add | apply | fix | set | crash (apply killed after the N-th revision write: a partial revision without error)
 	V        string `json:"v,omitempty"`
 	Ck       bool   `json:"ck,omitempty"`
 	Fail     bool   `json:"fail,omitempty"`
@@ -349,8 +349,28 @@ func checkCLI(c CLICase) (CLIOutcome, error) {
 			if failed != (r.Code != 0) {
 				return out, fmt.Errorf("step %d: %v\n apply exit=%d, expected failure=%v: %v", step, s, r.Code, failed, r)
 			}
+		case "crash":
+			// the process dies right after a revision write (no transaction): what stays behind is a revision that is
+			// partially applied and carries no error. No judgement here (C10 owns the crash itself); the history goes on.
+			s := stateOf(before)
+			s.Dirty = c.Dirty
+			if w := Model(s); w.Undefined != "" || w.Err != "" {
+				continue
+			}
+			r := sb.RunEnv([]string{fmt.Sprintf("VERIF_CRASH_AT=after_write:%d", op.N)}, "migrate", "apply", "--dir", "file://m", "--url", url, "--tx-mode", "none")
+			sb.ClearLocks()
+			out.Classes = append(out.Classes, fmt.Sprintf("cli/op/crash/died=%v", r.Code == 137))
 		case "set":
 			s := stateOf(before)
+			if op.V == "@last" {
+				if len(before.revs) == 0 {
+					continue
+				}
+				op.V = before.revs[len(before.revs)-1].Version
+				if rv := before.revs[len(before.revs)-1]; rv.Applied < rv.Total {
+					out.Classes = append(out.Classes, "cli/op/set/on-interrupted-revision")
+				}
+			}
 			if _, ok := files[op.V]; !ok {
 				continue
 			}
